@@ -120,7 +120,7 @@ void vf_kill (const void *p) { struct obj *o = find_obj (p); if (o != NULL) { o-
 const char *vf_name_of (const void *p) { struct obj *o = find_obj (p); return (o != NULL ? o->name : NULL); }
 
 /* ------------------------------------------------------------------ fibers */
-enum fstate { F_READY, F_BLOCKED_SEM, F_PARKED, F_BLOCKED_FUTEX, F_DONE };
+enum fstate { F_READY, F_BLOCKED_SEM, F_PARKED, F_BLOCKED_FUTEX, F_DONE, F_WAIT_FIBER };
 struct fiber {
 	ucontext_t ctx; char *stack; size_t stack_size;
 	enum fstate st;
@@ -129,7 +129,7 @@ struct fiber {
 	long park_epoch; int quiet_ops; long seen_epoch;
 	void *ptw; void (*ptw_dest) (void *);
 	long call_seq; int in_api;
-	int prio;
+	int prio; int wait_on; /* F_WAIT_FIBER: runnable once fiber wait_on is asleep */
 	const volatile uint32_t *pend_wait; /* about to load its `waiting` flag in the wait loop of nsync_mu_lock_slow_ */
 	/* futex */
 	int *fut_addr; int fut_woken; int fut_result; int fut_fault;
@@ -150,7 +150,8 @@ int64_t vf_now (void) { return (now_ns); }
 long vf_steps (void) { return (steps); }
 int vf_plain_sched (void) { return (cfg.plain_sched); }
 /* is fiber k asleep on a semaphore / futex (or finished)?  used by scenario ops that order set-up deterministically */
-int vf_fiber_blocked (int k) { return (k >= 0 && k < nfibers && (fibers[k].st == F_BLOCKED_SEM || fibers[k].st == F_BLOCKED_FUTEX || fibers[k].st == F_DONE)); }
+int vf_fiber_blocked (int k);
+void vf_wait_fiber_blocked (int k);
 const int *vf_schedule (int *len) { *len = sched_len; return (sched_rec); }
 
 static void fiber_main (void) {
@@ -181,13 +182,28 @@ static int runnable (struct fiber *f) {
 	case F_READY: return (1);
 	case F_BLOCKED_SEM: return (*sem_count (f->sem) > 0 || f->deadline <= now_ns);
 	case F_PARKED: return (f->park_epoch != write_epoch);
+	case F_WAIT_FIBER: return (vf_fiber_blocked (f->wait_on));
 	case F_BLOCKED_FUTEX: return (f->fut_woken || f->fut_fault != 0 || (f->deadline != INF_NS && f->deadline <= now_ns));
 	default: return (0);
 	}
 }
+/* is fiber k really asleep (blocked and not yet made runnable by a post / an expired deadline), or finished?  used by
+   scenario ops that order set-up deterministically */
+int vf_fiber_blocked (int k) { return (k >= 0 && k < nfibers && (fibers[k].st == F_DONE || ((fibers[k].st == F_BLOCKED_SEM || fibers[k].st == F_BLOCKED_FUTEX) && !runnable (&fibers[k])))); }
+/* scenario op `after_blocked k`: the calling fiber is not schedulable until fiber k sleeps (or is done) — a real block,
+   so that an unfair scheduling strategy cannot burn the step budget on it */
+void vf_wait_fiber_blocked (int k) {
+	if (cur < 0 || k < 0 || k >= nfibers || k == cur) { return; }
+	if (vf_fiber_blocked (k)) { return; }
+	fibers[cur].st = F_WAIT_FIBER; fibers[cur].wait_on = k;
+	yield_to_sched ();
+	fibers[cur].st = F_READY;
+}
 static void tick_to (int64_t t) {
 	if (t > now_ns) { now_ns = t; write_epoch++; vf_log_env ("tick %lld", (long long) t); if (sched_len < (int) (sizeof (sched_rec) / sizeof (sched_rec[0]))) { sched_rec[sched_len++] = -1; } }
 }
+/* scenario op `advance <ns>`: move the virtual clock forward as part of the program (not a scheduler choice: not recorded) */
+void vf_advance (int64_t ns) { if (ns > 0) { now_ns += ns; write_epoch++; vf_log_env ("tick %lld", (long long) now_ns); } }
 static int pct_points[8]; static int pct_n; static int consec;
 /* strategy 4 (adversarial barging, C14): fiber 0 is the victim; it is scheduled only while the hook says the
    mutex is held by somebody else (so that every retry of the victim loses the race), or when nobody else can run */
@@ -482,6 +498,14 @@ int vf_my_waiter_unlinked_by_waker (void) {
 	struct obj *o;
 	if (cur < 0 || fibers[cur].ptw == NULL) { return (0); }
 	o = find_obj (fibers[cur].ptw);
+	return (o != NULL && o->unl == 1);
+}
+
+/* the same for any fiber (quiescence oracle) */
+int vf_waiter_unlinked_by_waker (int k) {
+	struct obj *o;
+	if (k < 0 || k >= nfibers || fibers[k].ptw == NULL) { return (0); }
+	o = find_obj (fibers[k].ptw);
 	return (o != NULL && o->unl == 1);
 }
 
